@@ -122,12 +122,12 @@ Definition snd_of (l : list (pid * pmsg)) (p : pid) : list pmsg :=
 
 (* pairX_set_send_buf_len (since 7c956d7): while (!nni_lmq_full(&s->wmq)) { a = first(waq); if none break;
    remove; lmq_put(wmq, msg); finish(a, 0) }  -> (wmq', waq', aios completed) *)
-Fixpoint admit_waiters (cap : nat) (wmq : list pmsg) (waq : list (aioid * pmsg)) : list pmsg * list (aioid * pmsg) * list aioid :=
+Fixpoint takein_waiters (cap : nat) (wmq : list pmsg) (waq : list (aioid * pmsg)) : list pmsg * list (aioid * pmsg) * list aioid :=
   match waq with
   | [] => (wmq, [], [])
   | (a, m) :: r =>
       if lmq_full wmq cap then (wmq, waq, [])
-      else let '(w, q, d) := admit_waiters cap (wmq ++ [m]) r in (w, q, a :: d)
+      else let '(w, q, d) := takein_waiters cap (wmq ++ [m]) r in (w, q, a :: d)
   end.
 
 (* pairX_send_sched *)
@@ -267,7 +267,7 @@ Definition pair_step (k : pkind) (fx fr : bool) (s : pair) (o : pop) : pair * li
   | PSetOpt _ (OSendBuf n) =>                              (* pairX_set_send_buf_len *)
       if (PAIR_BUF_MAX <? N.of_nat n)%N then (s, [OptRv E_INVAL]) else
       let '(wmq', waq', done) :=
-        if fr then admit_waiters n (firstn n (pr_wmq s)) (pr_waq s) else (firstn n (pr_wmq s), pr_waq s, []) in
+        if fr then takein_waiters n (firstn n (pr_wmq s)) (pr_waq s) else (firstn n (pr_wmq s), pr_waq s, []) in
       let w := if negb (lmq_full wmq' n) then true else if negb (pr_wr s) then false else pr_writable s in
       (mkPair (pr_p s) (pr_ttl s) wmq' n waq' (pr_rmq s) (pr_rcap s) (pr_raq s)
               (pr_rd s) (pr_wr s) (pr_sending s) (pr_readable s) w,
